@@ -454,6 +454,10 @@ def host_application_settings():
     for sig in list(cur.flags):
         cur.flags[sig] = True
     decimal.setcontext(cur)
+    # ... and the application has edited the module-level template of new contexts, the documented way of setting
+    # application-wide defaults (threads started from now on, and every bare Context(), take their settings from it)
+    decimal.DefaultContext.rounding = decimal.ROUND_DOWN
+    decimal.DefaultContext.capitals = 0
 
 
 def reload_target():
@@ -548,7 +552,8 @@ def interpreter_modes(part, tier):
             it[1] = dict((k, x) for k, x in it[1].items() if not str(k).startswith("_"))
     modes = [({"PYTHONOPTIMIZE": "1"}, "python -O"), ({"VERIF_RELOAD": "1"}, "modules reloaded"), ({"VERIF_PYFLAGS": "-bb"}, "python -bb"),
              ({"VERIF_HOST": "1"}, "host settings: logging at DEBUG, imported under another decimal context, signal flags set"),
-             ({"VERIF_PYDECIMAL": "1"}, "pure-Python decimal module (no _decimal accelerator)")]
+             ({"VERIF_PYDECIMAL": "1"}, "pure-Python decimal module (no _decimal accelerator)"),
+             ({"PYTHONDEVMODE": "1"}, "Python Development Mode (-X dev: eager checks of codec and error-handler names ...)")]
     if tier != "quick":
         modes.append(({"PYTHONOPTIMIZE": "2"}, "python -OO"))
     d = tempfile.mkdtemp(prefix="vfmodes")
